@@ -539,6 +539,10 @@ class IncludeService(Attribute):
     @classmethod
     def _build(cls, instance):
         """Clone service."""
-        # Create a basic service with same properties.
-        return cls(instance.uuid)
+        # Create an include definition for the same included service.
+        return cls(instance.service_uuid)
+
+    def build(self):
+        """Build a new include service definition based on current template."""
+        return self.__class__._build(self)
 
